@@ -9,6 +9,8 @@ import (
 	"go/parser"
 	"go/printer"
 	"go/token"
+	"math"
+	"runtime/debug"
 	"strings"
 
 	"github.com/cenkalti/rain/v2/internal/peerprotocol"
@@ -40,6 +42,10 @@ func init() {
 }
 
 func execAdopt(ops []string) []string {
+	// A broken cap / clamp makes the real code allocate (never touch) a buffer of up to 4 GiB per
+	// call.  Under the GOMEMLIMIT the check sets, that turns every later case into a 30 s collector
+	// thrash and the run into a hang; without the limit the violation is reported in seconds.
+	debug.SetMemoryLimit(math.MaxInt64)
 	var obs []string
 	for _, op := range ops {
 		m := kv(op)
